@@ -161,10 +161,20 @@ OSAttribute ENVOBJ::getAttribute(CK_ATTRIBUTE_TYPE type)
 	return a;
 }
 
+#ifdef VP_ENV_NEXT_OTHER
+// attribute iteration of an environment object: CKA_CLASS, then the one attribute of arbitrary type (if it exists)
+CK_ATTRIBUTE_TYPE ENVOBJ::nextAttributeType(CK_ATTRIBUTE_TYPE type)
+{
+	SELF;
+	if (type == CKA_CLASS && OBJX(o, OTHER_EXISTS) && isOther(o, OBJX(o, OTHER_TYPE))) return OBJX(o, OTHER_TYPE);
+	return CKA_CLASS;
+}
+#else
 CK_ATTRIBUTE_TYPE ENVOBJ::nextAttributeType(CK_ATTRIBUTE_TYPE)
 {
 	return CKA_CLASS;
 }
+#endif
 
 static void vp_log(CK_ULONG kind, int o, CK_ATTRIBUTE_TYPE type, CK_ULONG val, CK_ULONG prov)
 {
